@@ -2,6 +2,9 @@ import Sqfs.Proofs.ObjConstruct
 import Sqfs.Proofs.ObjView
 import Sqfs.Proofs.ObjRestore
 import Sqfs.Proofs.ObjKinds
+import Sqfs.Proofs.C19Ops
+import Sqfs.Proofs.C19Frame
+import Sqfs.Proofs.C19Readers
 /-!
 C19 — copies of library objects are well-formed, equivalent, independent and safely destroyable.
 
@@ -281,5 +284,115 @@ example : ∃ h' c, sqfsCopyTop desc (construct envHeap .dirReader 0 1).1 4 = (h
   exact ⟨_, _, rfl, by decide⟩
 
 example : idRun (idCopy ⟨128, [5, 7]⟩) [.add 7, .add 9, .get 2] = [(0, 1), (0, 2), (0, 9)] := by decide
+
+/-! ### strengthened clauses (follow-up to the independent review) -/
+
+/-- `copy_fail_restores`: when `sqfs_copy` returns NULL — whichever allocation failed, in the hook or in a nested
+`sqfs_copy` — the heap is **exactly** the heap there was before the call: every object with its reference count and its
+slots (the original, everything it references, the shared file and compressor), every buffer with its contents; nothing
+of the half-built copy is left. -/
+theorem copy_fail_restores (h : Heap) (U : Nat → Nat) (o k : Nat) (hb : Balanced h U) (hl : (h.objs o).isSome)
+    (hn : (sqfsCopyTop desc { h with budget := some k } o).2 = none) :
+    (sqfsCopyTop desc { h with budget := some k } o).1.crash = none ∧
+    (sqfsCopyTop desc { h with budget := some k } o).1.objs = h.objs ∧
+    (sqfsCopyTop desc { h with budget := some k } o).1.bufs = h.bufs := by
+  obtain ⟨hc, hm⟩ := copy_fail_safe h U o k hb hl
+  rw [hn] at hm
+  have hf : Frame h (sqfsCopyTop desc { h with budget := some k } o).1 :=
+    (Frame.sqfsCopy desc h.nobj { h with budget := some k } o).ofBudget
+  obtain ⟨e1, e2⟩ := restore_of_frame hb hm hf
+  exact ⟨hc, e1, e2⟩
+
+/-- `ops_release_safe`: **any history that mixes operations, grabs and releases** — operations that store through own
+pointers, replace own buffers by fresh ones (realloc, cache replacement, first fill) or give them back, on any objects
+the user holds at that moment (original and copy among them), interleaved in any order with `sqfs_grab` and `sqfs_drop`
+— never calls a NULL hook, never touches freed memory, never frees twice, and leaves the heap balanced for exactly the
+references the user still holds. -/
+theorem ops_release_safe (h : Heap) (U : Nat → Nat) (es : List Ev) (hb : Balanced h U) (ha : Admissible U es) :
+    (runEvs h es).crash = none ∧ Balanced (runEvs h es) (userAfter U es) :=
+  have := runEvs_bal es hb ha
+  ⟨this.ok, this⟩
+
+/-- `copy_independent_mixed`: whatever the user does with *other* objects — operations that store, reallocate or free
+their buffers, grabs, releases down to their destruction — an object `y` it keeps holding is still there with the same
+slots and observes through every slot and internal pointer exactly what it observed before.  With `copy_balanced` (x =
+the copy, y = the original, or the other way round) this is "operations on one never affect the other", including the
+other's release. -/
+theorem copy_independent_mixed (h : Heap) (U : Nat → Nat) (es : List Ev) (y : Nat) (oy : Obj)
+    (hb : Balanced h U) (ha : Admissible U es) (hne : ∀ e ∈ es, e.target ≠ y) (hu : 1 ≤ U y) (hy : h.objs y = some oy) :
+    view (runEvs h es) y = view h y ∧
+    ∃ oy', (runEvs h es).objs y = some oy' ∧ oy'.bufs = oy.bufs ∧ oy'.views = oy.views ∧ oy'.refs = oy.refs := by
+  obtain ⟨hk, _⟩ := runEvs_keeps es hb ha hne hu hy
+  refine ⟨view_of_keeps hb hy hk, ?_⟩
+  obtain ⟨oy', h1, h2, _⟩ := hk
+  exact ⟨oy', h1, (congrArg Obj.bufs h2 : oy'.erase.bufs = oy.erase.bufs), (congrArg Obj.views h2 : oy'.erase.views = oy.erase.views),
+    (congrArg Obj.refs h2 : oy'.erase.refs = oy.erase.refs)⟩
+
+open Sqfs.C19R in
+/-- `copy_equiv_dataReader`: a data reader in any state the library can reach (created over any image `f` with any
+bounded decompressor, fragment table `tbl`, any history of reads, failed ones included), copied by `data_reader_copy`
+(`drCopy`: the tags and sizes, the fragment table, and of each cached block only the first `*_blk_size` bytes, into a
+zero-filled `block_size` buffer), answers **every** later sequence of reads exactly as the original: same status, same
+bytes.  The proof is `drCopy d = d`, which holds because every reachable state keeps `get_block`'s padding invariant. -/
+theorem copy_equiv_dataReader (kw : Bool) (f : MetaReader.File) (unc : MetaReader.Codec) (hc : CodecBounded unc)
+    (bs : Nat) (tbl : List (Nat × Nat)) (hist ops : List DataReader.Op) :
+    drAnswers kw f unc (drCopy (DataReader.run kw f unc (DataReader.fresh bs tbl) hist)) ops =
+      drAnswers kw f unc (DataReader.run kw f unc (DataReader.fresh bs tbl) hist) ops := by
+  rw [drCopy_eq (cacheInv_run hc hist _ (cacheInv_fresh bs tbl))]
+
+open Sqfs.C19R in
+/-- `copy_equiv_metaReader`: `meta_reader_copy` copies every field (cursor, cache tag, the whole inline block): the
+copy answers every later sequence of seeks, reads and position queries as the original (definitional — the content is
+in the tie: `mrCopy` applied to the real original's dumped state is compared with the real copy's on every run). -/
+theorem copy_equiv_metaReader (fix : Bool) (f : MetaReader.File) (unc : MetaReader.Codec) (m : MetaReader.MR)
+    (ops : List MetaReader.Op) : mrAnswers fix f unc (mrCopy m) ops = mrAnswers fix f unc m ops := rfl
+
+/-- `table_fill_is_adds`: the one-step set-up `fill n` of the table scenarios leaves the table that `n` calls of
+`sqfs_id_table_id_to_index` leave (so the boundary `used >= 0xFFFF` is reached by a real history) -/
+theorem table_fill_is_adds (n : Nat) (hn : n ≤ idLimit) : idAdds Arr.empty (List.range n) = idFill n := idFill_eq_adds n hn
+
+/-! non-vacuity of the strengthened clauses -/
+
+/-- a failing allocation exists: the third allocation inside the copy of the directory reader of the example above -/
+example : (sqfsCopyTop desc { (construct envHeap .dirReader 0 1).1 with budget := some 2 } 4).2 = none := by decide
+
+/-- an admissible mixed history on that heap: the reader's cache buffer is filled, replaced and given back, the reader
+grabbed and released twice (the second release destroys it and its two meta readers) -/
+example : ∃ h U, Balanced h U ∧ U 4 = 1 ∧ U 0 = 1 ∧
+    Admissible U [.op 4 (.realloc 0 ⟨8, 8, 1⟩), .grab 4, .op 4 (.realloc 0 ⟨16, 9, 2⟩), .drop 4, .op 4 (.store 0 5),
+      .op 4 (.release 0), .drop 4] ∧
+    (∀ e ∈ [Ev.op 4 (.realloc 0 ⟨8, 8, 1⟩), .grab 4, .op 4 (.realloc 0 ⟨16, 9, 2⟩), .drop 4, .op 4 (.store 0 5),
+      .op 4 (.release 0), .drop 4], e.target ≠ 0) := by
+  obtain ⟨U, hb, h0, h1⟩ := envHeap_balanced
+  have b3 := constructed_balanced .dirReader envHeap U 0 1 hb (by decide) (by decide)
+  have e : (construct envHeap .dirReader 0 1).2 = 4 := by decide
+  have hU4 : U 4 = 0 := (hb.dead 4 (Or.inl (by decide))).1
+  refine ⟨_, _, b3, by simp [e, hU4], by simp [e, h0], ?_, by decide⟩
+  simp [Admissible, Ev.user, Ev.target, e, hU4]
+
+/-- … and it really reshapes the heap: after the first three events the reader owns a 16-byte buffer, at the end nothing
+of the reader is left while the user's file is untouched -/
+example : ((runEvs (construct envHeap .dirReader 0 1).1 [.op 4 (.realloc 0 ⟨8, 8, 1⟩), .grab 4, .op 4 (.realloc 0 ⟨16, 9, 2⟩)]).objs 4).map
+    (fun o => (o.rc, o.bufs)) = some (2, [some 4, some 2]) := by decide
+
+open Sqfs.C19R in
+/-- the data-reader theorem is about non-trivial states: a reader over a 10-byte file whose history cached a 6-byte
+block in a buffer of 8 — the copy hook carries over 6 bytes and pads with zeros -/
+example : ∃ d : DataReader.DR, d = DataReader.run true ⟨10, fun i => UInt8.ofNat (i + 1), fun _ => false⟩ MetaReader.toyUnc
+      (DataReader.fresh 8 []) [.read ⟨6, 2, 0, 0, [16777222]⟩ 0 6] ∧
+    d.dataBlock = some ([3, 4, 5, 6, 7, 8, 0, 0], 6) ∧ drCopy d = d := by
+  refine ⟨_, rfl, by decide, by decide⟩
+
+example : Sqfs.C19R.CodecBounded MetaReader.toyUnc := Sqfs.C19R.toyUnc_bounded
+
+/-- the boundary of the id table: with 0xFFFF ids a new id is refused, with 0xFFFE it gets index 0xFFFE -/
+example : (idStep (idFill 0xFFFF) (.add 70000)).2 = (Sqfs.Consts.c19ErrOverflow, 0) ∧ (idStep (idFill 0xFFFE) (.add 70000)).2 = (0, 0xFFFE) := by
+  have h1 : (idFill 0xFFFF).data.idxOf? 70000 = none := by rw [idFill_data]; simp
+  have h2 : (idFill 0xFFFE).data.idxOf? 70000 = none := by rw [idFill_data]; simp
+  have l1 : (idFill 0xFFFF).data.length = 0xFFFF := by rw [idFill_data]; simp
+  have l2 : (idFill 0xFFFE).data.length = 0xFFFE := by rw [idFill_data]; simp
+  constructor
+  · simp only [idStep, h1, l1, idLimit]; rfl
+  · simp only [idStep, h2, l2, idLimit]; rfl
 
 end Sqfs.C19
